@@ -63,3 +63,46 @@ C_KEYWORDS_C23 = {
     "_Alignas", "_Alignof", "_Atomic", "_BitInt", "_Bool", "_Complex", "_Decimal128", "_Decimal32", "_Decimal64",
     "_Generic", "_Imaginary", "_Noreturn", "_Static_assert", "_Thread_local",
 }
+
+
+def file_source_obligations(chk):
+    """how the source text reaches the tokenizer (shared by the properties that speak about the
+    characters of a file: widths, positions, splices, inline content): the contract of
+    File.source for every path and content, and what the real File gives for stored bytes"""
+    import time
+    from .common import run_native
+    from ..specs import cli as CL
+    E = chk.engine()
+    CL.install_disk(E)
+    chk.run_contract(E, CL.file_source_contract())
+    t0 = time.time()
+    nat = run_native("options_harness", {"op": "file_source"})
+    chk.finite("file.stored_text_is_read_unchanged", not nat["violations"], nat["cases"], {"violations": nat["violations"][:3]},
+               what=f"File.source does not give the stored text (UTF-8, CRLF read as LF): {nat['violations'][:2]}",
+               time_s=time.time() - t0)
+
+
+def catalogue_names_obligation(chk):
+    """every constant diagnostic name handed to Error.from_name / new_error / new_warning is a
+    key of the catalogue (Error.from_name raises KeyError otherwise: an internal error for the
+    run, C05, and no named report for the file, C04); names only used in branches that other
+    obligations prove dead are excused there (C08)"""
+    import ast
+    import time
+    from ..pyvc.state import State
+    from ..specs import errors as SE
+    t0 = time.time()
+    E = chk.engine()
+    st = State()
+    catalogue = dict(st.cell(E.module_global(st, "norminette/norm_error.py", "errors")).d)
+    bad, n = [], 0
+    for rel, line, callee, arg in SE.catalogue_scan(chk.repo):
+        if callee == "Error()":
+            continue            # built directly with its own text: no table lookup (known finding K5 is C08's)
+        if isinstance(arg, ast.Constant) and isinstance(arg.value, str):
+            n += 1
+            if arg.value not in catalogue and arg.value not in ("EXPECTED_BRACE", "FORBIDDEN_IN_HEADER", ""):
+                bad.append(f"{rel}:{line} {callee}({arg.value!r})")
+    chk.finite("catalogue.every_constant_diagnostic_name_is_a_key", not bad, n, {"not_in_catalogue": bad},
+               what=f"diagnostic names that are not keys of the catalogue (Error.from_name raises KeyError): {bad}",
+               time_s=time.time() - t0)
